@@ -2,16 +2,20 @@
 
  1. TLC model-checks Store.tla - the transcription of MemoryStore (arrays, growth loop,
     markers, typed cells, default, mapper dicts and allocator) running in lock-step with
-    a dictionary model - for every data type x default/no default, all call histories
-    up to the bound: RetEqualsModel, Isolation, ReAddFresh, Refines, AllocatorFresh...
+    a dictionary model - one configuration per data type x default/no default, indices
+    0..3, 2 values, every call history up to the bound (quick: <= 6 calls; thorough: <= 7
+    calls with two key tails, <= 8 with one, and the complete reachable state space of
+    the value stores without history bound): RetEqualsModel, Isolation, ReAddFresh,
+    Refines, AllocatorFresh, DeclaredType, GrowthCleared.
  2. TLC generates call histories (exhaustive at tiny bounds, simulation beyond); each is
     replayed on a real rxsci.state.MemoryStore and through StoreManager + StateTopology
     with the recording store of harness/c14_recstore.py.
  3. The harness adds random in-contract call sequences (indices up to 2000: sparse,
     descending, repeated; all data types; with/without default) and the store calls
-    recorded under real pipelines (roll, group_by, scan, distinct ...).
+    recorded under real pipelines (roll, group_by, nested group_by, scan, lag ...).
  4. Every recorded call sequence is validated by TLC against StoreTrace.tla: the
-    observed return value of every call must agree with the dictionary model.
+    observed return value of every call must agree with the dictionary model (REJECT
+    clause = the name of the call).  Array contents are never compared.
 """
 import os
 import random
